@@ -51,6 +51,15 @@ var helperFuncs = template.FuncMap{
 	"oneline": func(s string) string {
 		return onelineReplacer.Replace(s)
 	},
+	// longstring writes arbitrary text as a long string literal. The text is taken as is in {"..."},
+	// a delimiter is added when the text itself contains the closing sequence
+	"longstring": func(s string) string {
+		delimiter := ""
+		for n := 0; strings.Contains(s, `"`+delimiter+"}"); n++ {
+			delimiter = fmt.Sprintf("CONTENT%d", n)
+		}
+		return "{" + delimiter + `"` + s + `"` + delimiter + "}"
+	},
 	"objectify": func(p Phase) string {
 		switch p {
 		case RequestPhase:
@@ -161,11 +170,11 @@ var headerTemplate = template.Must(
 {{end -}}
 
 {{- if eq .Action "regex" -}}
-	set {{ .Type | objectify }}.{{ .Destination }} = regsub({{ .Source }}, "{{ .Regex }}", "{{ .Substitution }}");
+	set {{ .Type | objectify }}.{{ .Destination }} = regsub({{ .Source }}, "{{ .Regex | vclstring }}", "{{ .Substitution | vclstring }}");
 {{end -}}
 
 {{- if eq .Action "regex_repeat" -}}
-	set {{ .Type | objectify }}.{{ .Destination }} = regsuball({{ .Source }}, "{{ .Regex }}", "{{ .Substitution }}");
+	set {{ .Type | objectify }}.{{ .Destination }} = regsuball({{ .Source }}, "{{ .Regex | vclstring }}", "{{ .Substitution | vclstring }}");
 {{end -}}
 
 {{if .IgnoreIfSet }}{{"}"}}{{- end}}
@@ -185,12 +194,13 @@ var responseObjectConditionTemplate = template.Must(
 
 var responseObjectTemplate = template.Must(
 	template.New("responseobject").
+		Funcs(helperFuncs).
 		Parse(
 			`
 if (obj.status == {{ .StatusCode }}) {{"{"}}
 	set obj.status = {{ .Status }};
-	set obj.http.Content-Type = "{{ .ContentType }}";
-	synthetic {{"{\""}}{{if .Content }}{{ .Content }}{{else}}{{ .Response }}{{end}}{{"\"}"}};
+	set obj.http.Content-Type = "{{ .ContentType | vclstring }}";
+	synthetic {{if .Content }}{{ .Content | longstring }}{{else}}{{ .Response | longstring }}{{end}};
 	return(deliver);
 {{"}"}}
 `,
